@@ -11,7 +11,8 @@ RULE = ("for every row of pytezos' base58 table (enumerated exhaustively): paylo
         "under a neighbouring binary prefix with a valid checksum, payload length +-1 with valid checksum, random "
         "base58 strings. Oracle: own base58check + Tezos prefix registry: encode has the documented prefix/length "
         "and decodes back; reference-invalid => base58_decode raises and every is_* predicate is false; no string is "
-        "valid for two kinds. Non-trivial: corrupted string still has a valid checksum, or payload is an extreme. "
+        "valid for two kinds; every ordered pair of kinds is decoded back to back (no state may leak between calls); hex spellings "
+        "of valid encodings are rejected. Non-trivial: corrupted string still has a valid checksum, or payload is an extreme. "
         "Distinct = distinct (row, string).")
 
 IS_FUNCS = ["is_pkh", "is_l2_pkh", "is_sig", "is_bh", "is_ogh", "is_kt", "is_sr", "is_public_key", "is_chain_id",
@@ -84,6 +85,8 @@ def check_string(s, case):
 
 def oracle(case):
     rows = table()
+    if case["mode"] == "pair":
+        return check_order(rows, case)
     if case["mode"] == "valid":
         row = rows[case["row"]]
         p = bytes.fromhex(case["payload"])
@@ -93,6 +96,21 @@ def oracle(case):
     if case["mode"] == "table":
         return check_table(case)
     return check_string(case["s"], case)
+
+
+def check_order(rows, case):
+    from pytezos.crypto import encoding as enc
+    i, j = case["pair"]
+    for k in (i, j, i):
+        human, elen, binp, plen, kind = rows[k]
+        payload = bytes((k * 37 + n * 11 + 5) % 256 for n in range(plen))
+        try:
+            got = enc.base58_decode(rc.b58check_encode(binp + payload).encode())
+        except Exception as e:
+            raise Violation("base58_decode of a valid %s failed in the sequence %s: %r" % (human, [rows[x][0] for x in (i, j, i)], e), case,
+                            "decode-order")
+        if got != payload:
+            raise Violation("base58_decode of a valid %s returned another payload in a sequence" % human, case, "decode-order-value")
 
 
 def check_table(case):
@@ -117,12 +135,15 @@ def replay(case):
 
 
 def _mutations(draw, s, rows):
-    kind = draw(st.sampled_from(["chg", "chg", "drop", "add", "swap-human", "near-bin", "len+1", "len-1", "resum", "pad", "pad"]))
+    kind = draw(st.sampled_from(["chg", "chg", "drop", "add", "swap-human", "near-bin", "len+1", "len-1", "resum", "pad", "pad", "hex"]))
     raw = rc.b58check_decode(s)
     if kind == "chg":
         i = draw(st.integers(0, len(s) - 1))
         c = draw(st.sampled_from(rc.ALPHABET + "0OIl"))
         return kind, s[:i] + c + s[i + 1:]
+    if kind == "hex":  # the hexadecimal spelling of a valid encoding (some helpers are hex-tolerant): not an encoding of any kind
+        h = s.encode().hex()
+        return kind, draw(st.sampled_from([h, "0x" + h, h.upper()]))
     if kind == "pad":  # characters outside the base58 alphabet (whitespace first) around / inside a valid encoding
         junk = draw(st.sampled_from([" ", "\n", "\t", "\r\n", "\x00", "  ", "\x0b", "\x0c", "\u00a0", "0", "_", "=", "\u2003"]))
         where = draw(st.sampled_from(["end", "end", "start", "both", "mid"]))
@@ -186,6 +207,27 @@ def run(h):
         ext = p in (b"\x00" * len(p), b"\xff" * len(p))
         stats.case(case, ext, "valid:" + ("extreme" if ext else "random"),
                    sample={"kind": rows[case["row"]][4], "payload": case["payload"][:16] + "…"})
+
+    # decoding one kind right after another: every ordered pair of table rows, on one process (no state may leak between calls)
+    def prop_pair(case, stats):
+        from pytezos.crypto import encoding as enc
+        (i, j) = case["pair"]
+        for k in (i, j, i):
+            human, elen, binp, plen, kind = rows[k]
+            payload = bytes((k * 37 + n * 11 + 5) % 256 for n in range(plen))
+            sgood = rc.b58check_encode(binp + payload)
+            try:
+                got = enc.base58_decode(sgood.encode())
+            except Exception as e:
+                raise Violation("base58_decode of a valid %s failed right after decoding a %s: %r" % (
+                    human, rows[i][0] if k == j else rows[j][0], e), case, "decode-order:%s-after-%s" % (human, rows[i][0] if k == j else rows[j][0]))
+            if got != payload:
+                raise Violation("base58_decode of a valid %s returned another payload after decoding a %s" % (human, rows[i][0]), case,
+                                "decode-order-value")
+        stats.case(case, rows[i][0].startswith(rows[j][0]) or rows[j][0].startswith(rows[i][0]), "ordered-pair",
+                   sample={"first": rows[i][0], "then": rows[j][0]})
+
+    h.run_enum([{"mode": "pair", "pair": [i, j]} for i in range(len(rows)) for j in range(len(rows)) if i != j], prop_pair, shards=16)
 
     h.exhaustive = True
     h.coverage_extra["exhaustive_subdomain"] = ("all %d table rows; min and max payload of each row (=> prefix and "
